@@ -69,13 +69,31 @@ def _resolve(segno, spec, ctx):
     return q
 
 
+class ArgsModified(Exception):
+    """A call changed an object the caller passed in (clause c15.args)."""
+
+
 def _call_make(segno, ms):
     fn = ms['fn']
     kw = core.dec(ms['kw'])
     if fn.startswith('helpers.'):
         from segno import helpers
-        return getattr(helpers, fn.split('.', 1)[1])(**kw)
-    return getattr(segno, fn)(core.dec(ms['content']), **kw)
+        q = getattr(helpers, fn.split('.', 1)[1])(**kw)
+        content = None
+    else:
+        content = core.dec(ms['content'])
+        q = getattr(segno, fn)(content, **kw)
+    # the objects handed to the library must be unchanged (compare with a fresh decode of the spec)
+    if kw != core.dec(ms['kw']) or (content is not None and content != core.dec(ms['content'])):
+        raise ArgsModified('%s modified its arguments: content %r, keywords %r' % (fn, content, kw))
+    return q
+
+
+def _run_cli_checked(argv, spec, ctx):
+    pr = world.run_cli(argv, plan=ctx.world.plan, stdout=ctx.stdout, stderr=ctx.stderr, swap=ctx.swap_std)
+    if argv != core.dec(spec['argv']):
+        raise ArgsModified('cli.main modified the argument list it was given: %r' % argv)
+    return pr
 
 
 def execute_op(segno, spec, ctx):
@@ -163,7 +181,8 @@ def execute_op(segno, spec, ctx):
         if op == 'cli':
             before = set(fs.files)
             mark_o, mark_e = len(ctx.stdout.parts), len(ctx.stderr.parts)
-            pr = world.run_cli(core.dec(spec['argv']), plan=ctx.world.plan, stdout=ctx.stdout, stderr=ctx.stderr, swap=ctx.swap_std)
+            argv = core.dec(spec['argv'])
+            pr = _run_cli_checked(argv, spec, ctx)
             files = {p: fs.files[p] for p in fs.files if p not in before and spec['name'] in p}
             return {'ok': {'status': pr['status'], 'stdout': sha(''.join(ctx.stdout.parts[mark_o:]).encode('utf-8')),
                            'stderr': ''.join(ctx.stderr.parts[mark_e:])[:300], 'traceback': pr['traceback'],
